@@ -21,13 +21,17 @@ from . import common as C
 
 TRUSTED = [
     "C19: a Python str is modelled as a list of Unicode scalar values; str.encode('utf-8') / str(value) are CPython's "
-    "(the harness encodes str keys/values before handing them to the model)",
+    "(the harness encodes str keys/values before handing them to the model, with their type tags; a str with a lone surrogate is "
+    "handed over as a token without bytes)",
     "C19: the `re` module is modelled only for the pattern subset `^?[class]+?($|\\Z)?` without flags (lean/Zc/Model/Name.lean: parsePat/reSearch)",
     "C19: lru_cache on service_type_name is assumed transparent",
+    "C19: .properties is read once, when the object is built; that an all-bytes dictionary is handed back as the caller's own live object "
+    "(compared as one bit) is a reading, not a violation: the property speaks of the dictionary given",
 ]
 ASSUMPTIONS = [
-    "C19 TXT round trip is claimed for dictionaries satisfying RFC 6763 section 6.4: keys non-empty, without '=', distinct "
-    "(case-insensitively for the RFC reader), every key[=value] item at most 255 bytes; values str/bytes/None",
+    "C19 TXT round trip is demanded ENTRY BY ENTRY: of every entry whose key has no '=', is not the part before the first '=' of another entry's "
+    "key and does not have the same bytes as another entry's key (for the RFC reader also: is not empty and not equal to another key up to ASCII case); "
+    "every key[=value] item at most 255 bytes; values str/bytes/None; strs that are Unicode text (a lone surrogate -> UnicodeEncodeError, finding D33)",
     "C19 name validation is claimed for strings of Unicode scalar values (no lone surrogates)",
 ]
 
@@ -1009,8 +1013,11 @@ def run(ctx):
     res.rule = ("names: corpus + hand-picked + EXHAUSTIVE service labels of length <= 3 over {a,Z,1,-,_,.,\\n,e-acute,DEL,U+017F,U+212A,U+0130} in 7 carrier forms x both strict modes "
                 "+ grammar-generated (valid skeleton, 0-3 rule violations of the service label, instance/subtype prefix with byte lengths 61-66 in mixed-width "
                 "characters, control characters, dots, _sub variants, 17 odd trailers) + total-length boundary 254-258/300 + random strings <= 300; "
+                "ASCII punctuation, combining marks, format characters and non-ASCII white space in instance labels, service labels over all 62 letters/digits; "
                 "constructor type/name pairs; property dictionaries (str/bytes keys, str/bytes/None/empty values, item lengths 254-256, colliding, "
-                "'='-containing and empty keys); raw TXT bytes (well-formed, truncated, random). non-trivial = distinct (stream, tag, mode, outcome) classes")
+                "'='-containing and empty keys, keys/values with edge white space, str with lone surrogates, TXT totals 255 B - 70 kB steered onto "
+                "1300/1460/8966/65535), judged entry by entry; raw TXT bytes (well-formed, truncated, random). non-trivial = distinct (stream, tag, mode, "
+                "outcome, size class) classes")
 
     # ---------------- evaluate names
     mi = 0
